@@ -898,6 +898,9 @@ class Interp:
                 env[nme] = v
                 if t.startswith("Enum:") or t == "PyStr":
                     if isinstance(v, SV):
+                        if v.ty != TName:
+                            v = lift(v, TName)
+                            env[nme] = v
                         uf_args.append(v)
                     else:
                         uf_args.append(lift(v.value if isinstance(v, EnumVal) else v))
@@ -912,6 +915,11 @@ class Interp:
             env[nme] = sv
             uf_args.append(sv)
         uf_args = [a for a in uf_args if a is not None]
+        for cv, cty in c.captured.items():
+            if cv not in st.env:
+                raise Unsupported(f"calling {c.qualname}: captured variable {cv} not in scope")
+            env[cv] = lift(st.env[cv], parse_ty(cty))
+            uf_args.append(env[cv])
         for g, gty in c.ghost.items():
             # a callee postcondition with ghosts is universally quantified: instantiate it with the caller's
             # same-named ghost (pointwise facts flow along) or, failing that, with an arbitrary fresh constant
